@@ -2,18 +2,22 @@
 //
 // Engine E2 (explicit-state search over operation sequences) on the real
 // aggregator.Aggregator built with aggregator.NewMocked: injected clock,
-// injected tick channel, `out` a buffered channel drained by the harness,
-// at-rest barrier harn.AggRest after EVERY operation. Free-running,
+// injected tick channel, `out` a buffered channel owned and drained by the
+// harness, at-rest barrier harn.AggRest after EVERY operation. Free-running,
 // uninstrumented build.
+//
+// Operations: point(name, ts, value), processed at the current clock;
+// tick(t), which carries its own time and moves the clock to t (non-decreasing);
+// in group D also clock(t) (the clock advances without a tick, ticks may then
+// carry a time below the clock, as a tick that waited in the buffered tick
+// channel does).
 //
 // Two searches per configuration (function x cache x format x interval/wait):
 //
-//	raw     every history over the alphabet up to a small depth is executed,
-//	        nothing merged (ground truth for the merged search).
-//	merged  breadth-first search to the full depth. A successor is produced by
-//	        replaying the (first-found, shortest) path on a fresh aggregator
-//	        and applying one more operation. Two histories are merged iff they
-//	        end with the same key
+//	raw     every history over the alphabet up to a small depth is executed on a
+//	        fresh aggregator, nothing merged (ground truth for the merged search).
+//	merged  breadth-first search over the product of reference model and
+//	        implementation. Two histories are merged iff they end with the same key
 //	            (clock, last tick, reference-model summary, dump of the
 //	             implementation's own state through the overlay accessor
 //	             VerifC10Dump: tsList, every open bucket's per-key processor
@@ -27,6 +31,25 @@
 //	        So every transition (state, op) of the product graph is executed
 //	        and compared once, and every history up to the depth is a path in
 //	        that graph.
+//	        Every state that is expanded is first reached by REPLAYING its
+//	        (first-found, shortest) history on a fresh aggregator, with the
+//	        oracle applied after every operation, and the replay must end in the
+//	        key recorded when the state was discovered. The operations of the
+//	        alphabet are then applied to that state one after the other; between
+//	        two of them the state (tsList, aggregations, cache) is re-installed
+//	        from a deep copy through the accessor VerifC10Restore instead of
+//	        replaying the history another time (the dump after a restore is
+//	        compared with the dump at the snapshot on every 8th operation).
+//	        Final alphabet: a history of the full depth ends with every
+//	        tick/clock operation but only with one point per (name, bucket):
+//	        the value and the position inside the bucket of a last point cannot
+//	        influence anything observable before a later tick (counters only, no
+//	        output), and every point is applied at every smaller depth. States at
+//	        the full depth are not counted.
+//	        Depth: quick 5 (4 with the match cache on, whose contents multiply
+//	        the states by 3-7); thorough 6 everywhere and 7 where the depth-5
+//	        frontier has at most 100000 states (the rule depends on counts only,
+//	        so the explored space is the same on every run).
 //
 // Oracle after every operation: lines written to `out` equal the reference as
 // a multiset per bucket and as a sequence across buckets (values to %f
@@ -35,7 +58,17 @@
 // reference says.
 //
 // The package-level TooOld counter forces one aggregator at a time per
-// process: the master re-executes itself as worker processes.
+// process: the master re-executes itself as worker processes (GOMAXPROCS=1;
+// level-synchronous, the master merges the workers' first sightings in
+// (path, operation) order, so the search does not depend on timing). A worker
+// that dies (panic in the aggregator's goroutine) or hangs is reported as a
+// violation with the history it was executing (kept in a /dev/shm file).
+//
+// Debugging aids: C10_ONLY=<substring of a configuration id>, C10_WORKERS=<n>,
+// C10_DEADLINE_S=<seconds>, C10_NORESTORE=1 (cross-check: never re-install a
+// state, replay the history on a fresh aggregator for every single transition;
+// must give the same state and transition counts); ./check C10 quick --replay <file> re-executes a
+// replay file step by step.
 package main
 
 import (
@@ -48,8 +81,6 @@ import (
 	"os"
 	"os/exec"
 	"runtime"
-	"runtime/debug"
-	"runtime/pprof"
 	"sort"
 	"strconv"
 	"strings"
@@ -100,10 +131,14 @@ type Config struct {
 	// Late: the clock may also advance without a tick (op clock) and a tick may
 	// carry a time below the clock (a tick that waited in the buffered tick
 	// channel), but never above it and never below the previous tick.
-	Late     bool `json:"late_ticks"`
-	Ops      []Op `json:"-"`
-	Depth    int  `json:"depth_merged"`
-	RawDepth int  `json:"depth_raw"`
+	Late bool `json:"late_ticks"`
+	Ops  []Op `json:"-"`
+	// merged search: every level up to Depth is expanded; beyond it (up to MaxDepth) a level is
+	// expanded only while the frontier has at most Cap states; the last level uses the final alphabet
+	Depth    int `json:"depth_merged"`
+	MaxDepth int `json:"max_depth_merged"`
+	Cap      int `json:"frontier_cap"`
+	RawDepth int `json:"depth_raw"`
 	bufs     [][][]byte
 	m        matcher.Matcher
 	// final[oi]: operation oi is applied as the LAST operation of a history of the full depth.
@@ -228,6 +263,17 @@ func configs(thorough bool) []*Config {
 		cs = append(cs, &Config{Group: "D", Fun: f, Regex: rule, Fmt: "$1", Cache: false, Interval: 10, Wait: 5, Init: baseA + 4, Late: true, Ops: opsD, Depth: depth, RawDepth: 2})
 	}
 	for _, c := range cs {
+		if c.Depth > 0 {
+			// quick: depth 5, with the match cache on (its contents multiply the states by 3-7) depth 4;
+			// thorough: depth 6 everywhere, depth 7 where at most 100000 states are on the depth-5 frontier
+			if c.Cache {
+				c.Depth--
+			}
+			c.MaxDepth, c.Cap = c.Depth, 0
+			if thorough {
+				c.Depth, c.MaxDepth, c.Cap = 6, 7, 100000
+			}
+		}
 		m, err := matcher.New("", "", "", "", c.Regex, "")
 		if err != nil {
 			panic(err)
@@ -293,15 +339,16 @@ type ReplayDoc struct {
 }
 
 type executor struct {
-	clock    int64 // unix seconds, read by the aggregator goroutine
-	out      chan []byte
-	tooOld   interface{ Count() int64 }
-	numIn    map[*Config]interface{ Count() int64 }
-	crash    *os.File
-	verbose  io.Writer
-	paranoid bool
-	ops      int64
-	execs    int64
+	clock     int64 // unix seconds, read by the aggregator goroutine
+	out       chan []byte
+	tooOld    interface{ Count() int64 }
+	numIn     map[*Config]interface{ Count() int64 }
+	crash     *os.File
+	verbose   io.Writer
+	paranoid  bool
+	noRestore bool
+	ops       int64
+	execs     int64
 }
 
 func newExecutor() *executor {
@@ -576,7 +623,19 @@ func (e *executor) expand(c *Config, path []uint8, expect *[16]byte, final bool,
 		if !c.allowed(o, clock0, lt0) || (final && !c.final[oi]) {
 			continue
 		}
-		l.a.VerifC10Restore(snap)
+		if e.noRestore { // cross-check mode: a fresh aggregator and one more replay for every operation
+			e.stop(l)
+			l2 := e.start(c)
+			*l = *l2
+			e.execs--
+			for i := range path {
+				if v = e.step(l, path, i); v != nil {
+					return v
+				}
+			}
+		} else {
+			l.a.VerifC10Restore(snap)
+		}
 		atomic.StoreInt64(&e.clock, clock0)
 		l.model = model0.Clone()
 		l.emitted, l.shared = emitted0, true
@@ -610,13 +669,14 @@ func (e *executor) expand(c *Config, path []uint8, expect *[16]byte, final bool,
 // worker protocol
 
 type Job struct {
-	Kind  string // "merged": expand Paths by one op each; "raw": every history below Prefix; "quit"
+	Kind  string // "merged": expand every path by every operation; "raw": every history of Depth operations below each path; "quit"
 	Cfg   int
 	Start int // index of Paths[0] in the level
 	Paths [][]uint8
 	Keys  [][16]byte // merged: the product state recorded for each path (empty for the root)
 	Depth int
-	Final bool // merged: the successors are at the full depth (reduced final alphabet, not expanded further)
+	Final bool  // merged: the successors are at the full depth (reduced final alphabet, not expanded further)
+	Done  []int // configurations that are finished (the worker drops what it remembers about them)
 }
 
 type NewState struct {
@@ -651,13 +711,9 @@ func workerMain() {
 	cs := configs(os.Getenv("C10_TIER") == "thorough")
 	e := newExecutor()
 	e.paranoid = os.Getenv("C10_PARANOID") != "0"
+	e.noRestore = os.Getenv("C10_NORESTORE") != ""
 	if p := os.Getenv("C10_CRASHFILE"); p != "" {
 		e.crash, _ = os.OpenFile(p, os.O_CREATE|os.O_WRONLY, 0o644)
-	}
-	if f := os.Getenv("C10_WPROF"); f != "" && strings.HasSuffix(os.Getenv("C10_CRASHFILE"), "-0") {
-		fh, _ := os.Create(f)
-		pprof.StartCPUProfile(fh)
-		defer pprof.StopCPUProfile()
 	}
 	seen := map[int]map[[16]byte]bool{}
 	for {
@@ -666,6 +722,9 @@ func workerMain() {
 			return
 		}
 		c := cs[j.Cfg]
+		for _, d := range j.Done {
+			delete(seen, d)
+		}
 		var r Reply
 		o0, x0 := e.ops, e.execs
 		switch j.Kind {
@@ -694,7 +753,7 @@ func workerMain() {
 					if !sn[key] {
 						sn[key] = true
 						r.New = append(r.New, NewState{PI: int32(j.Start + pi), OI: uint8(oi), Key: key, Ref: md5.Sum([]byte(rk))})
-						if len(r.Sample) < 1 && len(p) >= 2 {
+						if j.Start == 0 && pi == 0 && len(p) == 2 && len(r.Sample) < 2 { // deterministic choice: first state of the depth-2 frontier
 							r.Sample = append(r.Sample, fmt.Sprintf("%s history %s %s -> reference state {%s} implementation {%s}", c.ID(), histString(c, p), c.Ops[oi], rk, dump))
 						}
 					}
@@ -731,8 +790,6 @@ func workerMain() {
 				copy(q, p)
 				rec(q, now, lt)
 			}
-		case "forget":
-			delete(seen, j.Cfg)
 		}
 		r.Ops, r.Execs = e.ops-o0, e.execs-x0
 		if err := enc.Encode(&r); err != nil {
@@ -776,6 +833,9 @@ type master struct {
 	deadline time.Time
 	infra    string
 	incompl  []string
+	depths   []int
+	done     []int
+	nviol    map[string]int
 	perCfg   []map[string]interface{}
 }
 
@@ -809,7 +869,7 @@ func (m *master) serve(w *worker, wg *sync.WaitGroup) {
 	defer wg.Done()
 	defer os.Remove(w.crash)
 	for t := range m.tasks {
-		if atomic.LoadInt32(&m.stop) != 0 || (t.job.Kind != "forget" && time.Now().After(m.deadline)) {
+		if atomic.LoadInt32(&m.stop) != 0 || time.Now().After(m.deadline) {
 			t.reply <- nil
 			continue
 		}
@@ -847,7 +907,7 @@ func (m *master) serve(w *worker, wg *sync.WaitGroup) {
 				m.infra = fmt.Sprintf("worker %d failed before running anything: %v %s", w.id, err, tail)
 				m.mu.Unlock()
 			} else {
-				m.rep.Violation("crash "+h, fmt.Sprintf("the aggregator crashed or hung while executing %s: %v\n%s", h, err, tail), map[string]interface{}{"history": h, "stderr": tail})
+				m.rep.Violation("crash "+h, fmt.Sprintf("the aggregator crashed or hung while executing %s (or one more operation of the alphabet applied after it): %v\n%s", h, err, tail), map[string]interface{}{"history": h, "stderr": tail})
 			}
 			atomic.StoreInt32(&m.stop, 1)
 			t.reply <- nil
@@ -869,14 +929,21 @@ func (m *master) account(r *Reply) {
 	m.trans += r.Trans
 	m.execs += r.Execs
 	m.ops += r.Ops
-	for _, s := range r.Sample {
-		if len(m.samples) < 10 {
-			m.samples = append(m.samples, s)
-		}
-	}
+	m.samples = append(m.samples, r.Sample...)
 	m.mu.Unlock()
 	for _, v := range r.Viols {
-		m.rep.Violation(v.Sig, v.What, v.Replay)
+		// at most two replay files per configuration (a broken aggregator fails everywhere)
+		id := v.Sig
+		if i := strings.Index(id, " history="); i >= 0 {
+			id = id[:i]
+		}
+		m.mu.Lock()
+		m.nviol[id]++
+		n := m.nviol[id]
+		m.mu.Unlock()
+		if n <= 2 {
+			m.rep.Violation(v.Sig, v.What, v.Replay)
+		}
 	}
 }
 
@@ -885,7 +952,11 @@ func (m *master) submit(jobs []Job) []*Reply {
 	ts := make([]*task, len(jobs))
 	// tasks are queued in order (each worker then sees its share of a level in increasing order)
 	res := make([]*Reply, len(jobs))
+	m.mu.Lock()
+	done := append([]int(nil), m.done...)
+	m.mu.Unlock()
 	for i := range jobs {
+		jobs[i].Done = done
 		t := &task{job: jobs[i], reply: make(chan *Reply, 1)}
 		ts[i] = t
 		m.tasks <- t
@@ -936,7 +1007,10 @@ func (m *master) explore(ci int, deadline time.Time, nworkers int) {
 		var fkeys [][16]byte
 		var perLevel []int
 		trans := int64(0)
-		for d := 0; d < c.Depth && len(frontier) > 0; d++ {
+		reached := 0
+		for d := 0; d < c.MaxDepth && len(frontier) > 0; d++ {
+			// the level that reaches the last depth applies the final alphabet
+			final := d+1 == c.MaxDepth || (d+1 >= c.Depth && len(frontier) > c.Cap)
 			if time.Now().After(deadline) || atomic.LoadInt32(&m.stop) != 0 {
 				complete = false
 				info["stopped_before_depth"] = d + 1
@@ -952,7 +1026,7 @@ func (m *master) explore(ci int, deadline time.Time, nworkers int) {
 				if e > len(frontier) {
 					e = len(frontier)
 				}
-				j := Job{Kind: "merged", Cfg: ci, Start: s, Paths: frontier[s:e], Final: d+1 == c.Depth}
+				j := Job{Kind: "merged", Cfg: ci, Start: s, Paths: frontier[s:e], Final: final}
 				if len(fkeys) > 0 {
 					j.Keys = fkeys[s:e]
 				}
@@ -991,7 +1065,7 @@ func (m *master) explore(ci int, deadline time.Time, nworkers int) {
 					continue
 				}
 				seen[n.Key] = true
-				if d+1 < c.Depth {
+				if !final {
 					p := frontier[n.PI]
 					q := make([]uint8, len(p)+1)
 					copy(q, p)
@@ -1000,13 +1074,23 @@ func (m *master) explore(ci int, deadline time.Time, nworkers int) {
 					nkeys = append(nkeys, n.Key)
 				}
 			}
+			reached = d + 1
+			if final {
+				break
+			}
 			perLevel = append(perLevel, len(seen)+1)
 			frontier, fkeys = next, nkeys
 		}
-		for i := 0; i < nworkers; i++ { // whoever takes it frees its per-configuration set; stragglers free theirs at exit
-			m.submit([]Job{{Kind: "forget", Cfg: ci}})
+		info["depth_reached"] = reached
+		if complete {
+			m.mu.Lock()
+			m.depths = append(m.depths, reached)
+			m.mu.Unlock()
 		}
-		info["merged_depth"], info["product_states"], info["reference_states"], info["transitions"], info["product_states_by_depth"] = c.Depth, len(seen)+1, len(refSeen)+1, trans, perLevel
+		m.mu.Lock()
+		m.done = append(m.done, ci) // workers free their per-configuration sets when they see it in a later job
+		m.mu.Unlock()
+		info["product_states"], info["reference_states"], info["transitions"], info["product_states_by_depth"] = len(seen)+1, len(refSeen)+1, trans, perLevel
 		m.mu.Lock()
 		m.states += int64(len(refSeen) + 1)
 		m.product += int64(len(seen) + 1)
@@ -1057,10 +1141,6 @@ func main() {
 		workerMain()
 		return
 	}
-	if os.Getenv("C10_BENCH") != "" {
-		bench()
-		return
-	}
 	rep := kit.New("C10", "model_checking")
 	log.SetLevel(log.PanicLevel)
 	log.SetOutput(io.Discard)
@@ -1070,6 +1150,7 @@ func main() {
 		replay(rep, rep.ReplayOnly)
 	}
 	cs := configs(rep.Thorough())
+	showcase := showcases(cs)
 	nw := runtime.NumCPU()
 	if s := os.Getenv("C10_WORKERS"); s != "" {
 		nw, _ = strconv.Atoi(s)
@@ -1077,7 +1158,7 @@ func main() {
 	if nw < 1 {
 		nw = 1
 	}
-	m := &master{rep: rep, cs: cs, tasks: make(chan *task)}
+	m := &master{rep: rep, cs: cs, tasks: make(chan *task), nviol: map[string]int{}}
 	var wg sync.WaitGroup
 	for i := 0; i < nw; i++ {
 		w, err := m.spawn(i)
@@ -1131,6 +1212,14 @@ func main() {
 	if m.infra != "" {
 		rep.Infra = m.infra
 	}
+	sort.Strings(m.samples)
+	if len(m.samples) > 12 { // spread over the configurations
+		var pick []string
+		for i := 0; i < 12; i++ {
+			pick = append(pick, m.samples[i*len(m.samples)/12])
+		}
+		m.samples = pick
+	}
 	sort.Slice(m.perCfg, func(i, j int) bool { return m.perCfg[i]["config"].(string) < m.perCfg[j]["config"].(string) })
 	groups := map[string]string{}
 	var funs = map[string]bool{}
@@ -1138,12 +1227,23 @@ func main() {
 		groups[c.Group] = fmt.Sprintf("interval %d wait %d initial clock %d late ticks %v: %s", c.Interval, c.Wait, c.Init, c.Late, describeAlphabet(c.Ops))
 		funs[c.Fun] = true
 	}
-	depth, raw := cs[0].Depth, cs[0].RawDepth
+	raw := cs[0].RawDepth
+	depth, maxDepth := 0, 0
+	for i, d := range m.depths {
+		if i == 0 || d < depth {
+			depth = d
+		}
+		if d > maxDepth {
+			maxDepth = d
+		}
+	}
 	rep.Assume = []string{
 		"rule regex " + rule + " (k1.a and k1.b share the output key), formats $1 / agg.out (no capture group) / agg.$1.x; dropRaw off (C11 covers it)",
-		"the clock never runs backwards and a tick never carries a time above the clock (group D: ticks may lag behind the clock); clocks >= wait (below, the unsigned cutoff now-wait underflows: not a real clock)",
+		"the clock never runs backwards and a tick never carries a time above the clock (group D: ticks may lag behind the clock, what is due is decided by the tick's own time); clocks >= wait (below, the unsigned cutoff now-wait underflows: not a real clock)",
 		"derive: no line when a bucket has no two different timestamps, ties on the oldest/newest timestamp accept any of the tied values; stdev: population or sample accepted (docs/aggregation.md says neither); percentiles p25..p99 by the NIST (N+1) method cited in the code",
 		"state merging: histories are merged iff clock, last tick, reference summary and the implementation's own state dump (VerifC10Dump) agree; the cache's last-seen times are not part of the key (no expiry possible in the explored time span when wait >= 1; wait = 0 runs cache-off in the merged search and cache-on in the raw search)",
+		"every expanded state is reached by replaying its history on a fresh aggregator (and must reproduce the recorded key); the alphabet is then applied to it with the state re-installed between operations from a deep copy (VerifC10Restore) instead of one more replay: the aggregator is assumed to keep no state that matters outside tsList / aggregations / match cache (checked by the key comparison of every replay and by the raw search)",
+		"final alphabet: a history of the full depth ends with any tick/clock operation but only one point per (name, bucket); depth rule: see coverage.depth_rule",
 		"values are multiples of 0.5, so sums are exact; printed values are compared as %f strings (a 1e-9 relative rounding slack for differently ordered floating-point operations)",
 	}
 	cov := map[string]interface{}{
@@ -1154,15 +1254,17 @@ func main() {
 		"operations_executed_on_impl":   m.ops,
 		"raw_histories":                 m.rawHist,
 		"depth":                         depth,
+		"max_depth":                     maxDepth,
+		"depth_rule":                    "quick: merged search to depth 5, to depth 4 with the match cache on; thorough: depth 6 everywhere, depth 7 where the depth-5 frontier has at most 100000 states (per_configuration.depth_reached); depth = smallest depth_reached, max_depth = largest; raw search to raw_depth (cache-on wait=0 configurations: raw only)",
 		"raw_depth":                     raw,
 		"configurations":                len(cs),
 		"functions":                     len(funs),
 		"alphabet":                      groups,
-		"samples":                       m.samples,
+		"samples":                       append(showcase, toIface(m.samples)...),
 		"exhaustive":                    len(m.incompl) == 0 && atomic.LoadInt32(&m.stop) == 0,
 		"incomplete_configurations":     m.incompl,
 		"per_configuration":             m.perCfg,
-		"explanation":                   "states = distinct reference-model states (md5 of the canonical rendering), summed over configurations; product_states = distinct (reference state, implementation dump) pairs = nodes of the searched graph; transitions = (state, operation) pairs executed on the real aggregator and compared, plus the raw histories; every transition is one execution of the real code from a fresh aggregator (prefix replayed), compared with the reference after every operation",
+		"explanation":                   "states = distinct reference-model states below the full depth (md5 of the canonical rendering), summed over configurations; product_states = distinct (reference state, implementation dump) pairs = nodes of the searched graph; transitions = (state, operation) pairs executed on the real aggregator and compared with the reference, plus the raw histories; traces_validated_against_impl = histories executed from a fresh aggregator with the oracle after every operation (one per expanded state, plus the raw histories); operations_executed_on_impl = all operations the real aggregator processed",
 	}
 	rep.Finish(cov)
 }
@@ -1180,33 +1282,56 @@ func tuneGC() {
 	if mb > 0 {
 		ballast = make([]byte, mb<<20)
 	}
-	_ = debug.SetGCPercent
 }
 
-func bench() {
-	log.SetLevel(log.PanicLevel)
-	log.SetOutput(io.Discard)
-	aggregator.InitMetrics()
-	cs := configs(false)
+func toIface(l []string) []interface{} {
+	var out []interface{}
+	for _, s := range l {
+		out = append(out, s)
+	}
+	return out
+}
+
+// showcases executes three histories of the explored space in the master process and
+// records what the real aggregator emitted after every operation (evidence samples).
+func showcases(cs []*Config) []interface{} {
+	find := func(c *Config, o Op) uint8 {
+		for i, x := range c.Ops {
+			if x == o {
+				return uint8(i)
+			}
+		}
+		panic("showcase operation not in the alphabet: " + o.String())
+	}
+	pt := func(n string, ts int64, v float64) Op { return Op{K: "point", Name: n, TS: 1000 + ts, Val: v} }
+	tk := func(t int64) Op { return Op{K: "tick", T: 1000 + t} }
+	var out []interface{}
 	e := newExecutor()
-	tuneGC()
-	if p := os.Getenv("C10_CRASHFILE"); p != "" {
-		e.crash, _ = os.OpenFile(p, os.O_CREATE|os.O_WRONLY, 0o644)
+	for _, sc := range []struct {
+		fun, format string
+		h           []Op
+	}{
+		{"sum", "$1", []Op{pt("k1.a", 10, 1), pt("k1.b", 15, 2.5), pt("k2.a", 20, -3), tk(15), tk(25)}},
+		{"percentiles", "agg.out", []Op{pt("k1.a", 19, 2.5), pt("k2.a", 10, -3), tk(14), pt("k1.b", 15, 1), tk(16)}},
+		{"derive", "$1", []Op{pt("k1.a", 20, 1), pt("k1.a", 10, 2.5), pt("k1.b", 19, -3), tk(15), pt("k1.a", 15, 1)}},
+	} {
+		for _, c := range cs {
+			if c.Group != "A" || c.Fun != sc.fun || c.Fmt != sc.format || c.Cache {
+				continue
+			}
+			var p []uint8
+			for _, o := range sc.h {
+				p = append(p, find(c, o))
+			}
+			var b bytes.Buffer
+			e.verbose = &b
+			_, _, v := e.run(c, p)
+			steps := strings.Split(strings.TrimSpace(b.String()), "\n")
+			for i := range steps {
+				steps[i] = strings.Join(strings.Fields(steps[i]), " ")
+			}
+			out = append(out, map[string]interface{}{"config": c.ID(), "history": histString(c, p), "steps": steps, "violation": v != nil})
+		}
 	}
-	if f := os.Getenv("C10_PROF"); f != "" {
-		fh, _ := os.Create(f)
-		pprof.StartCPUProfile(fh)
-		defer pprof.StopCPUProfile()
-	}
-	ci, _ := strconv.Atoi(os.Getenv("C10_BENCH"))
-	c := cs[ci]
-	t0 := time.Now()
-	n := 0
-	for i := 0; i < 20000; i++ {
-		p := []uint8{uint8(i % 45), uint8((i / 45) % 45), 46, uint8(i % 7), 50}
-		e.run(c, p)
-		n += len(p)
-	}
-	d := time.Since(t0)
-	fmt.Printf("%s: %d ops %.2f us/op %.2f us/history\n", c.ID(), n, float64(d.Microseconds())/float64(n), float64(d.Microseconds())/20000)
+	return out
 }
